@@ -219,6 +219,8 @@ def _sym(I, st, tyd, name, depth):
         return VUser(name)
     if k == "param" and tyd["name"] == "Self" and SELF_KIND[0] == "array":
         return VSeq(leaf(name))
+    if k == "param" and tyd["name"] == "Self" and SELF_KIND[0] == "ff":
+        return VRec(FF, {"table": VSeq(leaf(name + ".table")), "target": VNat(Poly.atom(name + ".target"))})
     if k == "param":
         nm = tyd["name"]
         return VUser(("range:" if nm == "R" and RANGE_PARAM[0] else "") + name)
